@@ -53,7 +53,7 @@ pub async fn point() {
 /// Lets every spawned task run until the runtime's queues are empty.
 pub async fn settle() {
     let metrics = tokio::runtime::Handle::current().metrics();
-    for _ in 0..10_000 {
+    for _ in 0..1_000_000 {
         tokio::task::yield_now().await;
         if metrics.worker_local_queue_depth(0) == 0 && metrics.global_queue_depth() == 0 {
             return;
@@ -90,6 +90,12 @@ pub struct DriveCfg<'a> {
     /// Called with the step index right before a client is polled (e.g. to set the
     /// injected wall clock for whatever the step triggers).
     pub on_step: Option<&'a dyn Fn(usize)>,
+    /// When set, background (tokio-spawned) tasks are not run to quiescence between
+    /// client steps; instead "let every queued background task run once" becomes a
+    /// schedulable pseudo-client with the highest priority (choice 0 while background work
+    /// is queued), so that a deviation can slip a client step in between two rounds of
+    /// background work (e.g. between two actor messages of a spawned repair task).
+    pub interleave_background: bool,
 }
 
 impl Default for DriveCfg<'_> {
@@ -99,6 +105,7 @@ impl Default for DriveCfg<'_> {
             time_step: Duration::from_millis(250),
             max_steps: 10_000,
             on_step: None,
+            interleave_background: false,
         }
     }
 }
@@ -111,11 +118,18 @@ pub async fn drive(mut clients: Vec<Option<Client<'_>>>, schedule: &[usize], cfg
     let mut run = Run::default();
     let mut last: Option<usize> = None;
     let mut waited = Duration::ZERO;
+    let metrics = tokio::runtime::Handle::current().metrics();
+    let background = usize::MAX;
     loop {
-        settle().await;
+        if !cfg.interleave_background {
+            settle().await;
+        }
         let mut enabled: Vec<usize> = Vec::new();
+        if cfg.interleave_background && (metrics.worker_local_queue_depth(0) > 0 || metrics.global_queue_depth() > 0) {
+            enabled.push(background);
+        }
         if let Some(l) = last {
-            if clients[l].is_some() && flags[l].0.load(Ordering::SeqCst) {
+            if l != background && clients[l].is_some() && flags[l].0.load(Ordering::SeqCst) {
                 enabled.push(l);
             }
         }
@@ -156,6 +170,11 @@ pub async fn drive(mut clients: Vec<Option<Client<'_>>>, schedule: &[usize], cfg
         run.ran.push(i);
         if let Some(f) = cfg.on_step {
             f(step);
+        }
+        if i == background {
+            // one scheduler round: every task queued right now runs once
+            tokio::task::yield_now().await;
+            continue;
         }
         flags[i].0.store(false, Ordering::SeqCst);
         let waker = Waker::from(flags[i].clone());
@@ -299,6 +318,20 @@ pub fn block_on_fresh<T>(f: impl Future<Output = T>) -> T {
     let rt = tokio::runtime::Builder::new_current_thread()
         .enable_time()
         .start_paused(true)
+        .build()
+        .expect("runtime");
+    let out = rt.block_on(f);
+    drop(rt);
+    out
+}
+
+/// Like [block_on_fresh], but the scheduler returns to the driver after every single task
+/// poll, so that `DriveCfg::interleave_background` steps background tasks one poll at a time.
+pub fn block_on_fresh_fine<T>(f: impl Future<Output = T>) -> T {
+    let rt = tokio::runtime::Builder::new_current_thread()
+        .enable_time()
+        .start_paused(true)
+        .event_interval(1)
         .build()
         .expect("runtime");
     let out = rt.block_on(f);
